@@ -5,6 +5,57 @@ import vlib
 TOPOS = ["Line3", "Tri", "Ring4", "Star4", "Kite5", "Ring5c", "Grid6"]
 
 
+DYN = {"line": ([["a", "b"], ["b", "c"]], [["a", "b"]]), "tri": ([["a", "b"], ["b", "c"], ["a", "c"]], [])}
+
+
+def _complete(steps, topo, init_up):
+    """a FloodSubDyn history -> a full behaviour: bring the remaining links up, freeze, publish from every node"""
+    steps = [dict(s) for s in steps]
+    for s in steps:
+        s["subs"] = sorted(s["subs"]) if isinstance(s["subs"], list) else s["subs"]
+    if not any(s["a"] == "freeze" for s in steps):
+        up = {tuple(sorted(e)) for e in init_up} | {tuple(sorted(s["subs"])) for s in steps if s["a"] == "linkup"}
+        for e in topo:
+            if tuple(sorted(e)) not in up:
+                steps.append({"a": "linkup", "n": "", "id": 0, "subs": sorted(e), "w": True})
+        steps[-1]["w"] = True
+        steps.append({"a": "freeze", "n": "", "id": 0, "subs": [], "w": True})
+    if not any(s["a"] == "publish" for s in steps):
+        for i, n in enumerate(["a", "b", "c"]):
+            steps.append({"a": "publish", "n": n, "id": i + 1, "subs": [], "w": True})
+    return {"topo": init_up, "nodes": ["a", "b", "c"], "steps": steps}
+
+
+def dynamic(ctx):
+    """FloodSubDyn.tla: links coming up while subscriptions change. Model-checked; directed scenarios from its two model mutants;
+    simulated histories on a line (one link up at the start) and a triangle (no link up at the start)"""
+    ctx.tlc("MC_FloodSubDyn", cfg="MC_FloodSubDyn.cfg", timeout=900)
+    out = []
+    # (model mutant, invariant it must break): ghost subscription after a subscribe+release within one sweep; stale initial set
+    # leaving a ghost; stale initial set hiding a subscription from a later link (messages lost)
+    for bug, cfg in (("initempty", "MC_FloodSubDynDir.cfg"), ("staleinit", "MC_FloodSubDynDir.cfg"), ("staleinit", "MC_FloodSubDynDirM.cfg")):
+        hs = []
+        for big in ("1", "0"):   # prefer a scenario made of big steps only (deterministic on the real nodes)
+            r = ctx.tlc("MC_FloodSubDyn", cfg=cfg, workers=1, timeout=600, env={"BUG": bug, "BIGSTEP": big}, expect_ok=False, count=False)
+            hs = re.findall(r'<<"DHIST", "(.*)">>', r.out)
+            if hs:
+                break
+        if not hs:
+            raise vlib.Infra("FloodSubDyn model mutant %s / %s: no counterexample (directed scenario missing)\n%s" % (bug, cfg, r.out[-1500:]))
+        out.append(_complete(json.loads(hs[0].encode().decode("unicode_escape"))["steps"], *DYN["line"]))
+    per = 4 if ctx.tier == "quick" else 60
+    seen = set()
+    for topo in ("line", "tri"):
+        r = ctx.tlc("MC_FloodSubDyn", cfg="MC_FloodSubDynGen.cfg", simulate="num=%d" % per, extra=["-depth", "200"], workers=2,
+                    timeout=900, expect_ok=False, count=False, env={"TOPO": topo})
+        for m in re.finditer(r'<<"HIST", "(.*)">>', r.out):
+            s = m.group(1).encode().decode("unicode_escape")
+            if s not in seen:
+                seen.add(s)
+                out.append(_complete(json.loads(s)["steps"], *DYN[topo]))
+    return out
+
+
 def run(ctx):
     prop = ctx.prop
     ctx.assumptions = ["links between nodes are harness-mediated in-memory streams (wire tap, injection); the Execute loop's 100 ms sweep tick is waited out before every checkpoint",
@@ -26,6 +77,9 @@ def run(ctx):
                 behs.append(json.loads(s))
     if not behs:
         raise vlib.Infra("no floodsub behaviours generated")
+    nstatic = len(behs)
+    behs += dynamic(ctx)
+    ctx.cov["dynamic_link_behaviours"] = len(behs) - nstatic
     bpath = os.path.join(ctx.tmp, "fs_behaviours.json")
     json.dump(behs, open(bpath, "w"))
     tpath = os.path.join(ctx.tmp, "fs_trace.ndjson")
@@ -64,6 +118,11 @@ def run(ctx):
                     ctx.violation("C28:dedup-race", "%d of %d messages arriving on two streams at once were handed to the subscription twice" % (x["dups"], x["trials"]), x)
                 if prop == "C28" and x["missing"]:
                     ctx.violation("C28:dedup-lost", "%d of %d messages were never delivered" % (x["missing"], x["trials"]), x)
+            if x["e"] == "gated-release" and prop == "C29":
+                ctx.evaluations += x["rounds"]
+                ctx.cov["gated_release_rounds"] = x["rounds"]
+                if x["late_callbacks"]:
+                    ctx.violation("C29:callback-started-after-release", "%d of %d gated rounds: a handler of the subscription was invoked after Release had returned (dispatch in progress with two handlers, the first parked)" % (x["late_callbacks"], x["rounds"]), x)
             if x["e"] == "release" and prop == "C29":
                 ctx.evaluations += x["rounds"]
                 if x["late_callbacks"]:
